@@ -334,4 +334,83 @@ Definition minimize_deltas (ftol : T) (start deltas : list T) : res nmout :=
 Definition minimize_delta (ftol : T) (start : list T) (delta : T) : res nmout :=
   minimize_deltas ftol start (repeat delta (length start)).
 End ND.
+
+(** ** 3.3 one Minimization object across several calls (call history)
+    The members of struct Minimization that outlive a call: nfunc, mpts, ndim, fmin, y, current_simplex (ftol is const).
+    minimize(pp, func) assigns mpts, ndim, current_simplex and every y[i] before it reads them, sets nfunc = 0 after the
+    initial evaluations, and writes fmin on return; NMAX exceeded ends the process ([Exit]: there is no later call). *)
+Record nmobj := mkObj { ob_nfunc : Z; ob_mpts : nat; ob_ndim : nat; ob_fmin : T; ob_y : list T; ob_simplex : list (list T) }.
+
+Definition obj_minimize_general (f : list T -> T) (ob : nmobj) (ftol : T) (pp : list (list T)) : res (nmobj * nmout) :=
+  match pp with
+  | [] => OOB
+  | r0 :: _ =>
+      if Nat.ltb (length pp) 2 then OOB
+      else if negb (forallb (fun r => Nat.eqb (length r) (length r0)) pp) then OOB
+      else
+        (* mpts = pp.size(); ndim = pp[0].size(); current_simplex = pp; y.resize(mpts); y[i] = func(current_simplex[i]) for every
+           i < mpts (y has exactly mpts entries after the resize: nothing of its old contents is left) *)
+        let ob1 := mkObj (ob_nfunc ob) (length pp) (length r0) (ob_fmin ob) (map f pp) pp in
+        (* nfunc = 0; get_psum(current_simplex, psum); for(;;) ... *)
+        let ob2 := mkObj 0 (ob_mpts ob1) (ob_ndim ob1) (ob_fmin ob1) (ob_y ob1) (ob_simplex ob1) in
+        rmap (fun o => (mkObj (o_nfunc o) (ob_mpts ob2) (ob_ndim ob2) (o_fmin o) (o_y o) (o_simplex o), o))
+             (nm_loop f nm_fuel ftol (ob_ndim ob2)
+                (mkNM (ob_simplex ob2) (ob_y ob2) (get_psum (ob_simplex ob2) (ob_ndim ob2)) (ob_nfunc ob2) (rev pp)))
+  end.
+
+Definition obj_minimize_deltas (f : list T -> T) (ob : nmobj) (ftol : T) (start deltas : list T) : res (nmobj * nmout) :=
+  if negb (Nat.eqb (length deltas) (length start)) then Exit
+  else obj_minimize_general f ob ftol (simplex_of start deltas).
+
+Definition obj_minimize_delta (f : list T -> T) (ob : nmobj) (ftol : T) (start : list T) (delta : T) : res (nmobj * nmout) :=
+  obj_minimize_deltas f ob ftol start (repeat delta (length start)).
+
+(** a request to one of the three overloads, and a run of requests on one object (the run ends with the first call that
+    does not return: the process is gone) *)
+Inductive nmcall :=
+| CallG (f : list T -> T) (pp : list (list T))
+| CallD (f : list T -> T) (start deltas : list T)
+| Call1 (f : list T -> T) (start : list T) (delta : T).
+
+Definition obj_call (ob : nmobj) (ftol : T) (c : nmcall) : res (nmobj * nmout) :=
+  match c with
+  | CallG f pp => obj_minimize_general f ob ftol pp
+  | CallD f st ds => obj_minimize_deltas f ob ftol st ds
+  | Call1 f st d => obj_minimize_delta f ob ftol st d
+  end.
+
+(** the same request on an object that has not been used before *)
+Definition fresh_call (ftol : T) (c : nmcall) : res nmout :=
+  match c with
+  | CallG f pp => minimize_general f ftol pp
+  | CallD f st ds => minimize_deltas f ftol st ds
+  | Call1 f st d => minimize_delta f ftol st d
+  end.
+
+Fixpoint obj_run (ob : nmobj) (ftol : T) (cs : list nmcall) : list (res nmout) :=
+  match cs with
+  | [] => []
+  | c :: rest =>
+      match obj_call ob ftol c with
+      | Ok (ob', o) => Ok o :: obj_run ob' ftol rest
+      | Exit => [Exit] | OOB => [OOB] | Fuel => [Fuel]
+      end
+  end.
+
+Fixpoint fresh_run (ftol : T) (cs : list nmcall) : list (res nmout) :=
+  match cs with
+  | [] => []
+  | c :: rest =>
+      match fresh_call ftol c with
+      | Ok o => Ok o :: fresh_run ftol rest
+      | e => [e]
+      end
+  end.
+
+(** ** 3.4 profiled objectives: the objective of an outer minimisation runs a minimisation itself (re-entrancy)
+    F(x) = min_z g(x ++ z), computed by Nelder-Mead on an object [ob] (a fresh or a reused one) or by Find_Minimum *)
+Definition profile_nm1 (g : list T -> T) (ob : nmobj) (ftol_in : T) (z0 : list T) (din : T) (x : list T) : res (nmobj * T) :=
+  rmap (fun r => (fst r, o_fmin (snd r))) (obj_minimize_delta (fun z => g (x ++ z)) ob ftol_in z0 din).
+Definition profile_fmin (g : list T -> T) (zl zr tol_in : T) (x : list T) : res T :=
+  rmap (fun r => g (x ++ [fst (fst r)])) (find_minimum_full (fun z => g (x ++ [z])) zl zr tol_in).
 End Min.
